@@ -77,7 +77,9 @@ func c12Assemble(c *core.Ctx) {
 	if cst, ok := c.Pkg("bridgeservice").Types.Scope().Lookup("networkIDParam").(*types.Const); ok {
 		netLit = "const(" + cst.Val().ExactString() + ")"
 	}
-	net := func(s string) bool { return strings.Contains(s, "bridgeservice.parseUintQuery(") && strings.Contains(s, netLit) }
+	net := func(s string) bool {
+		return strings.Contains(s, "bridgeservice.parseUintQuery(") && strings.Contains(s, netLit)
+	}
 	isMain := core.TermEdges(fn, core.NewSymx(), func(s string, _ *core.Term) bool {
 		return net(s) && (strings.HasSuffix(s, " == const(0))") || strings.HasSuffix(s, " == bridgeservice.mainnetNetworkID)"))
 	}, true)
@@ -128,8 +130,8 @@ func c12Assemble(c *core.Ctx) {
 
 func init() {
 	register(&Property{
-		ID:    "C12",
-		Level: "other",
+		ID:          "C12",
+		Level:       "other",
 		Explanation: "Decides the assembly half of the claim flow structurally: C12-assemble — ClaimProofHandler looks up ONE L1 info leaf by the leaf_index parameter; the L1 branch (network 0 only) proves deposit_count against that leaf's MainnetExitRoot; the L2 branch (this node's network only) first obtains the local exit root as the leaf of the rollup exit tree at that leaf's RollupExitRoot and proves deposit_count against THAT root; the rollup proof is asked for (network, info.RollupExitRoot); the 200 response carries the proofs obtained and the same leaf; C12-error — an error of any of the five lookups ends the handler before the 200 response. Declined: the two binary searches getFirstL1InfoTreeIndexFor{L1,L2}Bridge — their correctness is monotonicity plus midpoint arithmetic over runtime data, which no structural rule in reach decides; that the proofs verify is C08's orientation argument only. Added after round 7: C12-frontier (shared with C01-step), lookups answer found only with the row they read (C12-tree).",
 		Rules: []Rule{
 			{ID: "C12-cover", Floor: 3, Run: c12Cover, Text: "[DOM] safety of both index searches: every record that can become the answer was compared (root.Index >= depositCount) on the selecting path; root façade pass-through"},
@@ -383,4 +385,3 @@ func fieldNameOf(fa *ssa.FieldAddr) string {
 	}
 	return ""
 }
-
